@@ -21,8 +21,8 @@ Print Assumptions C12_binary_same_eq.
 
 (* ---------- 2-d broadcast: the enumerator's (tag, offsets) sequence, read the way eval_binary reads
    it, is EXACTLY the row-major list of (output cell, designated lhs cell, designated rhs cell): every
-   cell once, in order.  Hypothesis: each operand is a valid broadcast source of (R,C) and is not
-   (1,1) under R > 1. *)
+   cell once, in order, for every valid 2-d broadcast pattern ((1,1) operands included since fix
+   "binary_2d_simd reads a (1,1) operand at offset 0"). *)
 Theorem C12_binary_2d_covers_once : forall N R C l r, 0 < N -> 0 < R -> 0 < C ->
   valid_operand R C l -> valid_operand R C r -> R = Nat.max (fst l) (fst r) ->
   flat_map (cells_of N) (b2d_entries N (R, C) l r)
@@ -38,22 +38,6 @@ Theorem C12_binary_2d_eq_on_domain : forall (A : Type) (N : nat) (f : A -> A -> 
   = Some (map (fun c => f (nth (bc2_cell C l c) lhs d) (nth (bc2_cell C r c) rhs d)) (seq 0 (R * C))).
 Proof. exact eval_binary_2d_eq. Qed.
 Print Assumptions C12_binary_2d_eq_on_domain.
-
-(* the hypothesis is needed: a (1,1) operand under a 2-row output is read at offset 1 of a 1-element buffer *)
-Theorem C12_binary_2d_covers_once_refuted : exists N R C l r (lhs rhs out0 : list nat),
-  0 < N /\ 0 < R /\ 0 < C /\ valid_operand R C l /\ (fst r = 1 \/ fst r = R) /\ (snd r = 1 \/ snd r = C) /\
-  R = Nat.max (fst l) (fst r) /\ length lhs = fst l * snd l /\ length rhs = fst r * snd r /\ length out0 = R * C /\
-  flat_map (cells_of N) (b2d_entries N (R, C) l r) <> map (fun c => (c, bc2_cell C l c, bc2_cell C r c)) (seq 0 (R * C)) /\
-  eval_binary_2d N Nat.add (R, C) l r lhs rhs out0 = None.
-Proof.
-  exists 4, 2, 1, (2, 1), (1, 1), [1; 2], [10], [0; 0].
-  split; [lia|]. split; [lia|]. split; [lia|].
-  split. { unfold valid_operand; simpl. split; [right; reflexivity|]. split; [left; reflexivity|]. intros [H _]; discriminate. }
-  split; [left; reflexivity|]. split; [left; reflexivity|].
-  split; [reflexivity|]. split; [reflexivity|]. split; [reflexivity|]. split; [reflexivity|].
-  split; [vm_compute; discriminate | vm_compute; reflexivity].
-Qed.
-Print Assumptions C12_binary_2d_covers_once_refuted.
 
 (* every packed access in bounds: the three element-wise evaluators return [Some _] on their domains *)
 Theorem C12_no_UB : forall (A : Type) (N : nat) (d : A), 0 < N ->
@@ -73,30 +57,19 @@ Qed.
 Print Assumptions C12_no_UB.
 
 (* ---------- reductions: "equal up to re-association" = equal for every associative-commutative f
-   with identity e.  [msum l] = fold_left f l e; for a non-empty l it is the scalar evaluator's left
+   with identity e (the accumulator starts from the op's identity since fix "SIMD full reduction starts
+   from the op's identity").  [msum l] = fold_left f l e; for a non-empty l it is the scalar evaluator's left
    fold seeded by the first element. *)
-Theorem C12_reduce_full_on_domain : forall (A : Type) (f : A -> A -> A) (e d : A) (N : nat) (inp : list A),
+Theorem C12_reduce_full_on_domain : forall (A : Type) (f : A -> A -> A) (e z d : A) (N : nat) (inp : list A),
   (forall a b c, f (f a b) c = f a (f b c)) -> (forall a b, f a b = f b a) -> (forall a, f e a = a) -> 0 < N ->
-  eval_reduce_full N f e (length inp) inp = Some (fold_left f inp e) /\
+  eval_reduce_full N f z e (length inp) inp = Some (fold_left f inp e) /\
   (inp <> [] -> fold_left f inp e = spec_reduce_full f d None inp).
 Proof.
-  intros A f e d N inp Ha Hc Hi HN. split.
-  - exact (eval_reduce_full_eq A f e Ha Hc Hi N HN d inp).
+  intros A f e z d N inp Ha Hc Hi HN. split.
+  - exact (eval_reduce_full_eq A f e Ha Hc Hi N HN d z inp).
   - intros Hne. symmetry. exact (fold1_msum A f e Ha Hc Hi d inp Hne).
 Qed.
 Print Assumptions C12_reduce_full_on_domain.
-
-(* the code starts the accumulator from set1(0) whatever the operation: with multiplication
-   (associative, commutative, identity 1) the result is 0, not the product *)
-Theorem C12_reduce_full_refuted : exists (N : nat) (inp : list nat),
-  0 < N /\ inp <> [] /\
-  (forall a b c, (a * b) * c = a * (b * c)) /\ (forall a b, a * b = b * a) /\ (forall a, 1 * a = a) /\
-  eval_reduce_full N Nat.mul 0 (length inp) inp = Some 0 /\
-  spec_reduce_full Nat.mul 0 None inp = 720.
-Proof.
-  exists 4, [1; 2; 3; 4; 5; 6]. repeat split; try lia; try discriminate; intros; lia.
-Qed.
-Print Assumptions C12_reduce_full_refuted.
 
 (* 2-d horizontal core (reduce along the contiguous axis of an (R,C) input, identity padding of the
    last pack, lane-wise accumulation then fold of the lanes): row sums, for every N, R, C *)
@@ -150,13 +123,6 @@ Theorem C12_reduce_initial_refuted : exists (N : nat) (inp : list nat) (init : n
 Proof. exists 4, [1; 2; 3; 4; 5; 6], 100. repeat split; try lia. Qed.
 Print Assumptions C12_reduce_initial_refuted.
 
-(* axis = -2 on a (2,3,2) input: VERTICAL arm with an empty "i <= axis" loop, accumulates past the output *)
-Theorem C12_reduce_negative_axis_refuted : exists (N : nat) (inp : list nat),
-  0 < N /\ length inp = 12 /\
-  eval_reduction N Nat.add 0 0 [2; 3; 2] [2; 1; 2] (Some (false, 0)) inp = Undefined.
-Proof. exists 4, [1; 2; 3; 4; 5; 6; 1; 2; 3; 4; 5; 6]. repeat split; try lia. Qed.
-Print Assumptions C12_reduce_negative_axis_refuted.
-
 (* ---------- non-vacuity ---------- *)
 Example C12_nonvacuous_unary : eval_unary 4 S [1;2;3;4;5;6;7;8;9] (repeat 0 9) = Some [2;3;4;5;6;7;8;9;10].
 Proof. reflexivity. Qed.
@@ -165,8 +131,17 @@ Proof. reflexivity. Qed.
 Example C12_nonvacuous_2d : valid_operand 3 5 (3, 1) /\ valid_operand 3 5 (1, 5) /\
   eval_binary_2d 4 Nat.add (3, 5) (3, 1) (1, 5) [100; 200; 300] [1; 2; 3; 4; 5] (repeat 0 15)
   = Some [101;102;103;104;105;201;202;203;204;205;301;302;303;304;305].
-Proof. repeat split; try (simpl; lia); try (intros [? [? ?]]; simpl in *; lia). Qed.
-Example C12_nonvacuous_reduce : eval_reduce_full 4 Nat.add 0 9 [1;2;3;4;5;6;7;8;9] = Some 45
-  /\ eval_reduce_axis 4 Nat.add 0 0 [2; 5] [2; 1] true 2 [1;2;3;4;5;6;7;8;9;10] 2 = Some [15; 40]
-  /\ eval_reduce_axis 4 Nat.add 0 0 [2; 5] [1; 5] false 1 [1;2;3;4;5;6;7;8;9;10] 5 = Some [7;9;11;13;15].
+Proof. repeat split; simpl; auto. Qed.
+Example C12_nonvacuous_reduce : eval_reduce_full 4 Nat.add 0 0 9 [1;2;3;4;5;6;7;8;9] = Some 45
+  /\ eval_reduce_axis 4 Nat.add 0 0 [2; 5] [2; 1] (false, 1) [1;2;3;4;5;6;7;8;9;10] 2 = Some [15; 40]
+  /\ eval_reduce_axis 4 Nat.add 0 0 [2; 5] [1; 5] (false, 0) [1;2;3;4;5;6;7;8;9;10] 5 = Some [7;9;11;13;15].
 Proof. repeat split; reflexivity. Qed.
+(* the three inputs that were refutations before the fix: commits (1) identity start, (6) negative axis, (2) (1,1) operand *)
+Example C12_repaired_full_multiply : eval_reduce_full 4 Nat.mul 0 1 6 [1;2;3;4;5;6] = Some 720.
+Proof. reflexivity. Qed.
+Example C12_repaired_negative_axis :
+  eval_reduction 4 Nat.add 0 0 [2; 3; 2] [2; 1; 2] (Some (true, 2)) [1;2;3;4;5;6;1;2;3;4;5;6] = Done [9; 12; 9; 12].
+Proof. reflexivity. Qed.
+Example C12_repaired_1x1_operand : valid_operand 2 1 (2, 1) /\ valid_operand 2 1 (1, 1) /\
+  eval_binary_2d 4 Nat.add (2, 1) (2, 1) (1, 1) [1; 2] [10] [0; 0] = Some [11; 12].
+Proof. repeat split; simpl; auto. Qed.
